@@ -894,7 +894,9 @@ func handleRestore(execCtx *rapidContext, restore *interop.Restore) (interop.Res
 	// If there is an error occured when waiting runtime to complete the restore hook execution,
 	// check if there is any error stored in appctx to get the root cause error type
 	// Runtime.ExitError is an example to such a scenario
-	if fatalErrorFound {
+	// (an error the runtime reported itself is the root cause already: a runtime that exits
+	// right after reporting it must not turn it into Runtime.ExitError)
+	if _, reportedByRuntime := err.(interop.ErrRestoreHookUserError); fatalErrorFound && !reportedByRuntime {
 		err = fmt.Errorf(string(fatalErrorType))
 	}
 
